@@ -104,6 +104,9 @@ Theorem C09_contains_implies_intersects_partial : forall a b,
   g_contains (g_of_shape a) (g_of_shape b) = Some true ->
   g_intersects (g_of_shape a) (g_of_shape b) = true.
 Proof. exact g_contains_intersects. Qed.
+Theorem C09_contains_point_implies_intersects : forall a q,
+  g_contains (g_of_shape a) (GPoint q) = Some true -> g_intersects (g_of_shape a) (GPoint q) = true.
+Proof. exact g_contains_point_intersects. Qed.
 Example C09_self_and_contains_hypotheses_hold_somewhere :
   let a := OColl 3 [OPoly [[(0,0);(8,0);(8,8);(0,8);(0,0)]]; OLine [(9,9);(12,12)]; OLine []] in
   obj_wf a /\ o_empty a = false /\ (forall x, In x (sleaves a) -> s_wf x) /\
